@@ -505,7 +505,7 @@ fn handle_need(
                             FROM crsql_changes
                             WHERE site_id = :actor_id
                               AND db_version = :version
-                            ORDER BY seq ASC
+                            ORDER BY seq ASC, cid = '-1' ASC
                     "#,
                 )?;
 
@@ -639,7 +639,7 @@ fn handle_need(
                                     WHERE site_id = :actor_id
                                       AND db_version = :version
                                       AND seq BETWEEN :start AND :end
-                                    ORDER BY seq ASC
+                                    ORDER BY seq ASC, cid = '-1' ASC
                             "#,
                         )?;
 
